@@ -77,11 +77,12 @@ def launch_shards(pid, tier, seed, nshards, examples, tmpdir):
 
 
 def merge(results):
-    merged = {"evaluations": 0, "enumerated": 0, "keys": set(), "labels": {}, "counters": {},
+    merged = {"evaluations": 0, "enumerated": 0, "corpus": 0, "keys": set(), "labels": {}, "counters": {},
               "samples": [], "failures": {}}
     for data in results:
         merged["evaluations"] += data["evaluations"]
         merged["enumerated"] += data["enumerated"]
+        merged["corpus"] += data.get("corpus", 0)
         merged["keys"].update(data["keys"])
         for k, v in data["labels"].items():
             merged["labels"][k] = merged["labels"].get(k, 0) + v
@@ -108,6 +109,7 @@ def write_evidence(check, tier, seed, merged, wall, violations, known_hits, extr
         "rule": check.rule,
         "samples": merged["samples"] or [{"note": "no non-trivial sample recorded"}],
         "enumerated_cases": merged["enumerated"],
+        "corpus_programs_replayed": merged.get("corpus", 0),
         "exhaustive": bool(check.exhaustive_note) and merged["enumerated"] > 0,
         "exhaustive_scope": check.exhaustive_note,
         "distribution": dict(sorted(merged["labels"].items())),
@@ -128,7 +130,6 @@ def write_evidence(check, tier, seed, merged, wall, violations, known_hits, extr
     }
     path = OUT_ROOT / "evidence" / f"{check.pid}.json"
     path.parent.mkdir(parents=True, exist_ok=True)
-    path.parent.mkdir(exist_ok=True)
     path.write_text(json.dumps(evidence, indent=1, default=str))
     return path
 
